@@ -39,6 +39,17 @@ class BlockEndsInMethod(nn.Module):
         return self.conv(x).clamp(min=-1.0)
 
 
+class BlockReadsTrainingFlag(nn.Module):
+    """conv -> functional dropout driven by self.training: the block behaves differently in
+    training and in eval mode without holding a torch.nn module that does"""
+    def __init__(self, cin, cout, k):
+        super().__init__()
+        self.conv = nn.Conv2d(cin, cout, k, padding='same')
+
+    def forward(self, x):
+        return F.dropout(self.conv(x), 0.4, training=self.training)
+
+
 def make_branch(desc, cin, cout):
     k = desc['kind']
     if k == 'conv':
@@ -55,6 +66,8 @@ def make_branch(desc, cin, cout):
         return BlockEndsInFunctional(cin, cout, desc['k'])
     if k == 'block_meth':
         return BlockEndsInMethod(cin, cout, desc['k'])
+    if k == 'block_drop':
+        return BlockReadsTrainingFlag(cin, cout, desc['k'])
     if k == 'ident':
         assert cin == cout
         return nn.Identity()
